@@ -165,12 +165,16 @@ fn run(args: &[String]) -> Result<i32, String> {
             println!("replayed {} cases ({} evaluations), {} mismatches, {} tool errors", rep.cases, rep.evaluations, rep.mismatch_count, rep.tool_errors.len());
             Ok(if !rep.tool_errors.is_empty() { 2 } else if rep.mismatch_count > 0 { 1 } else { 0 })
         }
-        Some("record-sched") | Some("record-ser") => {
+        Some("record-sched") | Some("record-ser") | Some("record-builder") => {
             // conform record-sched|record-ser <seed> <n> <trace.ndjson>
             let seed: u64 = args.get(2).ok_or("seed")?.parse().map_err(|_| "seed")?;
             let n: usize = args.get(3).ok_or("n")?.parse().map_err(|_| "n")?;
             let trace = args.get(4).ok_or("trace path")?;
-            let recs = if args[1] == "record-sched" { gensched::record_scenarios(seed, n)? } else { gensched::record_ser(seed, n)? };
+            let recs = match args[1].as_str() {
+                "record-sched" => gensched::record_scenarios(seed, n)?,
+                "record-builder" => gensched::record_builder(seed, n)?,
+                _ => gensched::record_ser(seed, n)?,
+            };
             let mut lines = String::new();
             for r in &recs {
                 lines.push_str(&serde_json::to_string(r).unwrap());
